@@ -34,6 +34,7 @@ type SpecEnv struct {
 	entryVars map[string]sval
 	// cellVars: captured variables (closure free variables): name -> cell address and value type.
 	cellVars map[string]sval
+	qdepth   int // nesting depth of quantifiers being evaluated
 }
 
 func (f *Frame) specEnv(st, old *State, pkg *ssa.Package) *SpecEnv {
@@ -281,7 +282,9 @@ func (env *SpecEnv) eval(e Expr) (sval, error) {
 			env.vars[qv.Name] = qval
 			binders = append(binders, fmt.Sprintf("(%s %s)", name, srt))
 		}
+		env.qdepth++
 		body, err := env.evalBool(x.Body)
+		env.qdepth--
 		if err == nil && x.Trig != nil {
 			tv, terr := env.eval(x.Trig)
 			if terr != nil {
@@ -628,7 +631,15 @@ func (env *SpecEnv) evalSel(x *ESel) (sval, error) {
 			return sval{}, fmt.Errorf("type %s has no field %s", elem, x.Name)
 		}
 		addr := addrPath(v.t, path)
-		return env.sv(f.load(env.state(), addr, ft), ft), nil
+		lv := f.load(env.state(), addr, ft)
+		if env.qdepth == 0 {
+			// every value held in a typed slot satisfies its type's facts
+			switch ft.Underlying().(type) {
+			case *types.Pointer, *types.Map, *types.Chan, *types.Slice, *types.Interface:
+				f.ctx.Fact(f.ctx.typeFacts(lv, ft, ""))
+			}
+		}
+		return env.sv(lv, ft), nil
 	}
 	if st, ok := v.typ.Underlying().(*types.Struct); ok {
 		path, ft, ok := findField(st, x.Name)
@@ -808,6 +819,20 @@ func (env *SpecEnv) evalCall(x *ECall) (sval, error) {
 				return sval{}, fmt.Errorf("deref of non-pointer %s", v.typ)
 			}
 			return env.sv(f.load(env.state(), v.t, pt.Elem()), pt.Elem()), nil
+		case "structobj":
+			// structobj(p): p points into an ordinary object (struct, array, variable), not a
+			// map or channel runtime object — needed to frame it against writes to maps
+			if len(x.Args) != 1 {
+				return sval{}, fmt.Errorf("structobj takes one argument")
+			}
+			v, err := env.eval(x.Args[0])
+			if err != nil {
+				return sval{}, err
+			}
+			if v.sort != "Ptr" {
+				return sval{}, fmt.Errorf("structobj of non-pointer")
+			}
+			return sval{t: fmt.Sprintf("(not (ismapobj (pobj %s)))", v.t), sort: "Bool"}, nil
 		case "dom":
 			// dom(m, k): the bare membership term of key k in map m (for use as a trigger)
 			if len(x.Args) != 2 {
